@@ -40,5 +40,6 @@ Definition mon_C19 (c : wcase) : bool :=
   && late_enq_return (c_script c) 0%Z false.
 
 Definition case := wcase.
-Definition verdict (c : case) : nat := if mon_C19 c then classify rel_C19 c else 1.
+Definition verdict (c : case) : nat :=
+  if negb (mon_nohang c) then 1 (* a caller hangs *) else if mon_C19 c then classify rel_C19 c else 1.
 Definition mismatches (cs : list case) : list (nat * nat) := collect verdict 0 cs.
